@@ -167,6 +167,10 @@ impl SignatureContext<'_> {
 
         let amz_date = AmzDate::parse(info.x_amz_date).map_err(|_| invalid_request!("invalid field: x-amz-date"))?;
 
+        if credential.date != amz_date.fmt_date().as_str() {
+            return Err(s3_error!(SignatureDoesNotMatch, "credential date does not match x-amz-date"));
+        }
+
         let access_key = credential.access_key_id.to_owned();
         let secret_key = auth.get_secret_key(&access_key).await?;
 
@@ -234,6 +238,10 @@ impl SignatureContext<'_> {
             if duration > presigned_url.expires {
                 return Err(s3_error!(AccessDenied, "Request has expired"));
             }
+        }
+
+        if presigned_url.credential.date != presigned_url.amz_date.fmt_date().as_str() {
+            return Err(s3_error!(SignatureDoesNotMatch, "credential date does not match X-Amz-Date"));
         }
 
         let auth = require_auth(self.auth)?;
@@ -315,6 +323,11 @@ impl SignatureContext<'_> {
         let secret_key = auth.get_secret_key(access_key).await?;
 
         let amz_date = extract_amz_date(&self.hs)?.ok_or_else(|| invalid_request!("missing header: x-amz-date"))?;
+
+        // the date of the credential scope is the date of the request
+        if authorization.credential.date != amz_date.fmt_date().as_str() {
+            return Err(s3_error!(SignatureDoesNotMatch, "credential date does not match x-amz-date"));
+        }
 
         let is_stream = matches!(amz_content_sha256, Some(AmzContentSha256::MultipleChunks));
 
